@@ -25,10 +25,10 @@ def sh(cmd, **kw):
     return subprocess.run(cmd, shell=True, env=ENV, stdout=subprocess.PIPE, stderr=subprocess.STDOUT, text=True, **kw)
 
 
-def build(scratch, race=False, cli=False):
+def build(scratch, race=False, cli=False, native=False):
     t0 = time.time()
     # cli: also build <scratch>/vc20, the scipipe CLI of the tree under check (plans with "cli": True)
-    r = sh(f"{'VERIF_CLI=1 ' if cli else ''}{V}/prep.sh {scratch} {'race' if race else ''}")
+    r = sh(f"{'VERIF_CLI=1 ' if cli else ''}{'VERIF_NATIVE=1 ' if native else ''}{V}/prep.sh {scratch} {'race' if race else ''}")
     if r.returncode != 0:
         print(r.stdout)
         kind = "INSTRUMENT-ERROR" if "INSTRUMENT-ERROR" in r.stdout else "BUILD-ERROR"
@@ -119,7 +119,7 @@ def main():
         prop = a.prop
         plan = J.plan(prop, a.tier, seed)
         race = plan.get("race", False)
-        tb = build(scratch, race=race, cli=plan.get("cli", False))
+        tb = build(scratch, race=race, cli=plan.get("cli", False), native=plan.get("native", False))
         rdir = os.path.join(V, "replays", prop)
         shutil.rmtree(rdir, ignore_errors=True)
         ctx = {"scratch": scratch, "run_job": lambda job: run_job(scratch, job), "pool": a.jobs, "replay_dir": rdir, "tier": a.tier, "only": a.only, "seed": seed}
